@@ -1,7 +1,7 @@
 from props import TB_COMMON
 
 HDR4 = ("From Coq Require Import List NArith.\nFrom TeraV Require Import Model.Value Model.Lineage Corr.CorrC04.\n"
-        "Import ListNotations.\nLocal Open Scope N_scope.")
+        "Import ListNotations.")
 CFG = {
     "bin": "c04",
     "corr": ["CorrC04"],
